@@ -202,10 +202,97 @@ def _td_case(ctx, mode, required_present, dep_subset, repl_set):
                         if v != rp.TaskDescription._defaults.get(k)))
 
 
+# legal values per attribute (of the documented type, so that no cast is due):
+# verify() must hand each of them back unchanged
+SD_IN  = {'source': 'client:///in.dat', 'target': 'task:///in.dat',
+          'action': 'Transfer', 'flags': 0, 'priority': 0}
+PRESERVE = {
+    'executable'     : ['/bin/x', 'x y'],
+    'arguments'      : [['a', 'b c', '', '$X', '1']],
+    'environment'    : [{'A': '1', 'B': 'x y'}],
+    'pre_exec'       : [['echo a'], ['echo a', {'0': ['echo r0'],
+                                                '1': 'echo r1'}],
+                        [{'0': 'echo only'}]],
+    'post_exec'      : [['echo a'], [{'1': ['echo r1', 'echo r1b']}, 'echo z']],
+    'pre_launch'     : [['module load x']],
+    'post_launch'    : [['echo done']],
+    'pre_exec_sync'  : [True, False],
+    'stdout'         : ['out.txt'],
+    'stderr'         : ['err.txt'],
+    'input_staging'  : [['a.dat', 'b.dat > c.dat'], [dict(SD_IN)],
+                        [dict(SD_IN), 'x.dat']],
+    'output_staging' : [['o.dat'], [dict(SD_IN, source='task:///o',
+                                         target='client:///o')]],
+    'tags'           : [{'colocate': 'a'}, {'colocate': 0, 'exclusive': True}],
+    'metadata'       : [{'k': [1, {'a': 2.5}], 'l': None}],
+    'named_env'      : ['ve1'],
+    'sandbox'        : ['sb', 'task:///x'],
+    'services'       : [['s1', 's2']],
+    'timeout'        : [1.5, 0.0],
+    'startup_timeout': [2.0],
+    'priority'       : [1, -1],
+    'partition'      : [2],
+    'pilot'          : ['pilot.0001'],
+    'name'           : ['n 1'],
+    'uid'            : ['task.x'],
+    'ranks'          : [2],
+    'ranks_per_node' : [2],
+    'cores_per_rank' : [3],
+    'gpus_per_rank'  : [0.5, 2.0],
+    'gpu_type'       : ['CUDA'],
+    'threading_type' : ['OpenMP'],
+    'lfs_per_rank'   : [5],
+    'mem_per_rank'   : [7],
+    'restartable'    : [True],
+    'cleanup'        : [True],
+    'stage_on_error' : [True],
+    'info_pattern'   : ['stdout:ready'],
+    'raptor_id'      : ['master.0'],
+    'kwargs'         : [{'a': [1, 2], 'func': 'x'}],
+    'args'           : [[1, 'a', {'k': None}]],
+}
+
+
+def check_values_preserved(ctx):
+    n = 0
+    base = {'executable': '/bin/true'}
+    cases = [(k, v) for k, vals in sorted(PRESERVE.items()) for v in vals]
+    # each value alone, and all attributes at once (first value of each)
+    descrs = [dict(base, **{k: copy.deepcopy(v)}) for k, v in cases]
+    descrs.append(dict(base, **{k: copy.deepcopy(vals[0])
+                                for k, vals in PRESERVE.items()}))
+    for d in descrs:
+        replay = {'kind': 'td', 'from_dict': d}
+        td = rp.TaskDescription(copy.deepcopy(d))
+        n += 1
+        try:
+            td.verify()
+        except Exception as e:
+            ctx.violation('spurious-reject|TaskDescription._verify|value',
+                          'verify() raised %r for %s' % (e, d), replay)
+            continue
+        after = td.as_dict()
+        for k, v in d.items():
+            if after.get(k) != v or type(after.get(k)) is not type(v):
+                ctx.violation('value-changed|TaskDescription._verify|%s' % k,
+                              'verify() changed %s: %r -> %r'
+                              % (k, v, after.get(k)), replay)
+        again = rp.TaskDescription(seams.wire(after)).as_dict()
+        if again != after:
+            diff = sorted(k for k in after if again.get(k) != after[k])
+            ctx.violation('wire-roundtrip|TaskDescription.__init__|%s'
+                          % '+'.join(diff),
+                          'msgpack round trip changes %s of %s' % (diff, d),
+                          replay)
+        ctx.outcome(('tdv', repr(sorted((k, repr(after.get(k))) for k in d))))
+    ctx.cover(evaluations=n, td_value_cases=n)
+
+
 def check_task_descriptions(ctx):
 
     names = [d[0] for d in DEPRECATED]
     n     = 0
+    check_values_preserved(ctx)
 
     # (i) complete product of deprecated subsets x replacement set/unset, for
     #     the default mode
@@ -334,7 +421,10 @@ FUNCS = {
 }
 
 ARGS   = [(), (1,), ('a b', [1, {'k': 2}]), (None, 0)]
-KWARGS = ['<omitted>', None, {}, {'x': 1}, {'comm': None, 'y': 'a b'}]
+KWARGS = ['<omitted>', None, {}, {'x': 1}, {'comm': None, 'y': 'a b'},
+          # keyword names an encoder or decoder is likely to use itself
+          {'func': 'f', 'args': 1, 'kwargs': 2, 'self': 3, 'cls': 4,
+           'function': 5}]
 
 
 def _call(f, args, kwargs):
@@ -372,7 +462,8 @@ def check_function_tasks(ctx):
                  fname, len(args),
                  kwargs if isinstance(kwargs, str) else
                  ('None' if kwargs is None else
-                  'empty' if not kwargs else 'given'), via)
+                  'empty' if not kwargs else
+                  'reserved-names' if 'func' in kwargs else 'given'), via)
         replay = {'kind': 'func', 'func': fname, 'args': list(args),
                   'kwargs': kwargs, 'via': via}
         n += 1
